@@ -59,6 +59,10 @@ impl Suppressions {
     if !node.kind().contains("comment") || !node.text().contains(IGNORE_TEXT) {
       return;
     }
+    // the content of a comment can be a node of its own, e.g. comment_content, doc_comment
+    if node.parent().is_some_and(|p| p.kind().contains("comment")) {
+      return;
+    }
     let line = node.start_pos().line();
     let suppress_next_line = if let Some(prev) = node.prev() {
       prev.start_pos().line() != line
